@@ -210,6 +210,255 @@ impl Obs {
         Ok(())
     }
 
+    /// Insider, structural: the committer itself (it owns the signing key, the membership key and the tree) signs a commit
+    /// whose update path is structurally wrong, with everything that can be made consistent made consistent: the leaf's
+    /// parent hash is recomputed over the modified path by the independent tree model, the leaf and the content are
+    /// re-signed, the membership tag is recomputed. The re-signed but otherwise unmodified commit is the positive control:
+    /// it must be ACCEPTED, which proves that rejections below are due to the structure and not to a bad signature.
+    fn structural(&mut self, w: &World, sender: usize, receiver: usize, genuine: &[u8]) -> CaseResult {
+        use crate::refmodel::tree::{HashAlg, RefNode, RefParent, RefTreeNodes};
+        let Some(pm) = wire::parse_public_message(genuine) else { return Ok(()) };
+        let (Some(_), Some(pre_tree)) = (pm.membership_tag, self.pre_tree.clone()) else { return Ok(()) };
+        let span = |n: &str| pm.spans.iter().find(|x| x.name == n).cloned();
+        // only commits whose proposals cannot touch the tree: the provisional tree is then the old tree
+        let Some(props) = span("commit.proposals") else { return Ok(()) };
+        let n_props = pm.spans.iter().filter(|x| x.name.starts_with("commit.proposals[") && x.name.ends_with("].kind")).count();
+        let tree_neutral = pm.spans.iter().filter(|x| x.name.starts_with("commit.proposals[")).all(|x| {
+            // by-value PSK (4), GroupContextExtensions (7) and custom proposals leave the tree alone; references are opaque
+            !x.name.ends_with("].reference") && (!x.name.ends_with("].proposal_type") || matches!(u16::from_be_bytes([genuine[x.start], genuine[x.start + 1]]), 4 | 8..=u16::MAX))
+        });
+        let _ = props;
+        let (Some(leaf_sp), Some(nodes_sp)) = (span("commit.path.leaf_node"), span("commit.path.nodes")) else { return Ok(()) };
+        if !tree_neutral {
+            self.ev.class("structural_forgery_skipped:commit_changes_tree");
+            return Ok(());
+        }
+        let _ = n_props;
+        let alg = HashAlg::for_suite(w.cfg.suite);
+        let s = rk::Suite::new(w.cfg.suite);
+        let Some(mut tree) = RefTreeNodes::parse(&pre_tree) else { return Ok(()) };
+        let keys = w.parties[sender].g().verif_epoch_keys();
+        let ctx = w.parties[sender].g().context().mls_encode_to_vec().expect("ctx");
+        let leaf = w.parties[sender].leaf();
+        let group_id = w.parties[sender].g().group_id().to_vec();
+        let csp = w.parties[sender].suite_provider(w.cfg.suite);
+        // the new signer when the commit changes the committer's identity
+        // the committer's signer, or the new one when this commit carries its identity change: the positive control decides
+        let mut signers = vec![w.parties[sender].signer.clone()];
+        if let Some(p) = &w.parties[sender].pending_identity {
+            signers.insert(0, p.0.clone());
+        }
+        let signer_ix = std::cell::Cell::new(0usize);
+        let sign = |label: &str, content: &[u8]| -> Option<Vec<u8>> {
+            // the content is signed with the key of the committer's current leaf, the new leaf with its (possibly new) own key
+            let signer = if label == "LeafNodeTBS" { &signers[signer_ix.get()] } else { &w.parties[sender].signer };
+            let mut sc = vec![];
+            put_opaque(&mut sc, format!("MLS 1.0 {label}").as_bytes());
+            put_opaque(&mut sc, content);
+            mls_rs::CipherSuiteProvider::sign(&csp, signer, &sc).ok()
+        };
+        // path nodes as raw byte ranges
+        let mut node_raw: Vec<(Vec<u8>, Vec<u8>)> = vec![]; // (encryption key, whole encoded node)
+        for i in 0.. {
+            let (Some(k), Some(c)) = (span(&format!("commit.path.nodes[{i}].encryption_key")), span(&format!("commit.path.nodes[{i}].ciphertexts"))) else { break };
+            let mut r = crate::refmodel::tls::Reader::new(&genuine[k.start..k.end]);
+            let key = r.opaque().unwrap_or_default().to_vec();
+            node_raw.push((key, genuine[k.start..c.end].to_vec()));
+        }
+        let fdp = tree.filtered_direct_path(leaf);
+        if fdp.len() != node_raw.len() || node_raw.is_empty() {
+            self.ev.class("structural_forgery_skipped:path_shape");
+            return Ok(());
+        }
+        let lf = |n: &str| span(&format!("commit.path.leaf_node.{n}"));
+        let (Some(l_ph), Some(l_ext), Some(l_sig), Some(l_enc), Some(l_sigkey)) = (lf("parent_hash"), lf("extensions"), lf("signature"), lf("encryption_key"), lf("signature_key")) else { return Ok(()) };
+        let _ = &l_sig;
+
+        #[derive(Clone)]
+        struct Plan {
+            name: &'static str,
+            /// encoded path nodes to send
+            nodes: Vec<(Vec<u8>, Vec<u8>)>,
+            /// corrupt the (consistent) parent hash afterwards
+            break_parent_hash: bool,
+            /// replace the leaf's HPKE key / signature key
+            leaf_enc: Option<Vec<u8>>,
+            leaf_sigkey: Option<Vec<u8>>,
+            /// leaf index put into the LeafNodeTBS
+            tbs_leaf: u32,
+            expect_accept: bool,
+        }
+        let base = Plan { name: "resigned_unmodified", nodes: node_raw.clone(), break_parent_hash: false, leaf_enc: None, leaf_sigkey: None, tbs_leaf: leaf, expect_accept: true };
+        // two positive controls: content re-signed around the genuine leaf (must get to the confirmation tag, which covers the
+        // new signature), then leaf and content re-signed (accepted outright with deterministic signatures; with randomised
+        // ones the HPKE context of the genuine path secrets no longer matches the new leaf bytes, so decapsulation fails)
+        let mut plans = vec![Plan { name: "resigned_content_only", ..base.clone() }, base.clone()];
+        // (1) every shorter path
+        for k in 0..node_raw.len() {
+            plans.push(Plan { name: "short_update_path", nodes: node_raw[..k].to_vec(), expect_accept: false, ..base.clone() });
+        }
+        // (2) a longer path
+        {
+            let mut n = node_raw.clone();
+            n.push(node_raw[node_raw.len() - 1].clone());
+            plans.push(Plan { name: "long_update_path", nodes: n, expect_accept: false, ..base.clone() });
+        }
+        // (3) wrong parent hash, properly signed
+        plans.push(Plan { name: "wrong_parent_hash", break_parent_hash: true, expect_accept: false, ..base.clone() });
+        // (4) foreign keys: another member's HPKE key / signature key in the committer's new leaf; the committer's old HPKE key
+        let others: Vec<u32> = tree.occupied_leaves().into_iter().filter(|l| *l != leaf).collect();
+        if let Some(o) = others.get(self.rng.below(others.len().max(1) as u64) as usize).and_then(|o| tree.leaf(*o)).cloned() {
+            plans.push(Plan { name: "foreign_hpke_key_in_leaf", leaf_enc: Some(o.encryption_key.clone()), expect_accept: false, ..base.clone() });
+            plans.push(Plan { name: "foreign_signature_key_in_leaf", leaf_sigkey: Some(o.signature_key.clone()), expect_accept: false, ..base.clone() });
+        }
+        if let Some(me) = tree.leaf(leaf).cloned() {
+            plans.push(Plan { name: "unchanged_hpke_key_in_leaf", leaf_enc: Some(me.encryption_key.clone()), expect_accept: false, ..base.clone() });
+        }
+        // (5) leaf signed for another position
+        if let Some(o) = others.first() {
+            plans.push(Plan { name: "leaf_signed_for_other_index", tbs_leaf: *o, expect_accept: false, ..base.clone() });
+        }
+
+        let orig_nodes = tree.nodes.clone();
+        let mut queue: std::collections::VecDeque<Plan> = plans.into();
+        while let Some(plan) = queue.pop_front() {
+            tree.nodes = orig_nodes.clone();
+            // install the sent keys on the filtered direct path, bottom-up; the rest keeps its old nodes
+            for (i, (p, _)) in fdp.iter().enumerate() {
+                if let Some((key, _)) = plan.nodes.get(i) {
+                    tree.nodes[*p as usize] = RefNode::Parent(RefParent { encryption_key: key.clone(), parent_hash: vec![], unmerged: vec![], raw: vec![] });
+                }
+            }
+            // the library derives the chain top-down over the filtered direct path and overwrites every stored parent hash on it
+            let mut hash: Vec<u8> = vec![];
+            let mut consistent = true;
+            for (p, c) in fdp.iter().rev() {
+                let sib = tree.tree_hash_of(alg, *c);
+                let RefNode::Parent(pn) = &mut tree.nodes[*p as usize] else {
+                    consistent = false;
+                    break;
+                };
+                pn.parent_hash = hash.clone();
+                let mut input = vec![];
+                put_opaque(&mut input, &pn.encryption_key);
+                put_opaque(&mut input, &pn.parent_hash);
+                put_opaque(&mut input, &sib);
+                hash = alg.hash(&input);
+            }
+            if !consistent {
+                self.ev.class("structural_forgery_skipped:blank_above_short_path");
+                continue;
+            }
+            if plan.name == "resigned_unmodified" {
+                // calibration of the forger: the recomputed parent hash is the one the library put into the genuine leaf
+                let mut r = crate::refmodel::tls::Reader::new(&genuine[l_ph.start..l_ph.end]);
+                if r.opaque().map(|x| x.to_vec()) != Some(hash.clone()) {
+                    self.ev.class("structural_forgery_skipped:parent_hash_model_differs");
+                    return Ok(());
+                }
+            }
+            if plan.break_parent_hash {
+                let i = self.rng.below(hash.len() as u64) as usize;
+                hash[i] ^= 0x20;
+            }
+            // leaf: [encryption_key][signature_key][credential .. source][parent_hash][extensions] + signature
+            let mut lbody = vec![];
+            match &plan.leaf_enc {
+                Some(k) => put_opaque(&mut lbody, k),
+                None => lbody.extend_from_slice(&genuine[l_enc.start..l_enc.end]),
+            }
+            match &plan.leaf_sigkey {
+                Some(k) => put_opaque(&mut lbody, k),
+                None => lbody.extend_from_slice(&genuine[l_sigkey.start..l_sigkey.end]),
+            }
+            lbody.extend_from_slice(&genuine[l_sigkey.end..l_ph.start]);
+            put_opaque(&mut lbody, &hash);
+            lbody.extend_from_slice(&genuine[l_ext.start..l_ext.end]);
+            let mut tbs = lbody.clone();
+            put_opaque(&mut tbs, &group_id);
+            tbs.extend_from_slice(&plan.tbs_leaf.to_be_bytes());
+            let Some(lsig) = sign("LeafNodeTBS", &tbs) else { return Ok(()) };
+            // pick the leaf signer whose signature verifies under the signature key the leaf declares (identity changes)
+            let lsig = {
+                let mut sc = vec![];
+                put_opaque(&mut sc, b"MLS 1.0 LeafNodeTBS");
+                put_opaque(&mut sc, &tbs);
+                let declared = {
+                    let mut r = crate::refmodel::tls::Reader::new(&genuine[l_sigkey.start..l_sigkey.end]);
+                    mls_rs::crypto::SignaturePublicKey::from(r.opaque().unwrap_or_default().to_vec())
+                };
+                if plan.name == "resigned_unmodified" && mls_rs::CipherSuiteProvider::verify(&csp, &declared, &lsig, &sc).is_err() && signer_ix.get() + 1 < signers.len() {
+                    signer_ix.set(signer_ix.get() + 1);
+                    match sign("LeafNodeTBS", &tbs) {
+                        Some(x) => x,
+                        None => return Ok(()),
+                    }
+                } else {
+                    lsig
+                }
+            };
+            let mut new_leaf = lbody;
+            put_opaque(&mut new_leaf, &lsig);
+            if plan.name == "resigned_content_only" {
+                new_leaf = genuine[leaf_sp.start..leaf_sp.end].to_vec();
+            }
+            // framed content with the new path
+            let mut framed = genuine[pm.framed.start..leaf_sp.start].to_vec();
+            framed.extend_from_slice(&new_leaf);
+            let mut nodes = vec![];
+            for (_, raw) in &plan.nodes {
+                nodes.extend_from_slice(raw);
+            }
+            put_opaque(&mut framed, &nodes);
+            debug_assert!(nodes_sp.end == pm.framed.end);
+            // FramedContentTBS = version, wire_format, FramedContent, GroupContext
+            let mut ftbs = vec![];
+            ftbs.extend_from_slice(&pm.version.to_be_bytes());
+            ftbs.extend_from_slice(&1u16.to_be_bytes());
+            ftbs.extend_from_slice(&framed);
+            ftbs.extend_from_slice(&ctx);
+            let Some(fsig) = sign("FramedContentTBS", &ftbs) else { return Ok(()) };
+            let mut auth = vec![];
+            put_opaque(&mut auth, &fsig);
+            put_opaque(&mut auth, pm.confirmation_tag.unwrap_or_default());
+            let mut out = vec![];
+            out.extend_from_slice(&pm.version.to_be_bytes());
+            out.extend_from_slice(&1u16.to_be_bytes());
+            out.extend_from_slice(&framed);
+            out.extend_from_slice(&auth);
+            let tag = rk::membership_tag(&s, &keys.key_schedule.membership_key, pm.version, 1, &framed, &ctx, &auth);
+            put_opaque(&mut out, &tag);
+
+            if plan.expect_accept {
+                // positive control. The confirmation tag covers the signature, which changed: the control is good when the
+                // message gets as far as the confirmation tag (or is accepted, with deterministic signatures).
+                let t = w.now();
+                let mut clone = w.parties[receiver].g().clone();
+                let r = guard(|| clone.process_incoming_message_with_time(MlsMessage::from_bytes(&out)?, t)).map(|_| ());
+                let deterministic = matches!(w.cfg.suite, 1 | 3) || w.parties[sender].provider == crate::providers::ProviderKind::RustCrypto;
+                match r {
+                    Ok(()) => self.ev.class(&format!("structural_forger_control:{}:accepted", plan.name)),
+                    Err(e) if e.is_panic() => return Err(panic_failure(P, "process_incoming_message(re-signed commit)", &e)),
+                    Err(e) if e.class() == "InvalidConfirmationTag" => self.ev.class(&format!("structural_forger_control:{}:reached_confirmation_tag", plan.name)),
+                    Err(e) if plan.name == "resigned_unmodified" && !deterministic && e.class() == "CryptoProviderError" => {
+                        self.ev.class("structural_forger_control:resigned_unmodified:reached_decapsulation(randomised signature)")
+                    }
+                    Err(e) => {
+                        // the forger does not reproduce this commit: no structural forgeries from it
+                        self.ev.class(&format!("structural_forger_control_failed:{}:{}", plan.name, e.class()));
+                        self.ev.sample("structural_forger_control_failed", || serde_json::json!({"kind": "control failed", "control": plan.name, "error": e.text(), "provider": w.parties[sender].provider.name(), "suite": w.cfg.suite}));
+                        return Ok(());
+                    }
+                }
+                continue;
+            }
+            let mu = Mutation { bytes: out.clone(), label: format!("insider:{} ({} of {} path nodes)", plan.name, plan.nodes.len(), node_raw.len()), field: format!("insider_{}", plan.name) };
+            self.must_reject(w, receiver, &out, "public_commit", &mu)?;
+            self.ev.class(&format!("insider_forgeries:{}", plan.name));
+        }
+        Ok(())
+    }
+
     fn welcome_battery(&mut self, w: &World, info: &CommitInfo) -> CaseResult {
         let t = w.now();
         let single_joiner = info.joined.len() == 1;
@@ -354,6 +603,7 @@ impl Observer for Obs {
             let committer = w.members().into_iter().find(|c| w.parties[*c].g().has_pending_commit());
             if let Some(c) = committer {
                 self.insider(w, c, &[m], bytes, kind)?;
+                self.structural(w, c, m, bytes)?;
             }
         }
         Ok(())
@@ -425,7 +675,9 @@ pub fn run(ctx: &Ctx) -> ! {
          proposals, application messages, Welcomes (single and per-member), GroupInfo (tree inside / outside) and out-of-band ratchet trees. Outsider mutators, addressed through an independent span-level wire \
          parser so that every FIELD is hit as often as long ciphertexts: single-bit flips, byte changes, truncation at random lengths, splices of one field between two valid messages of the same kind. \
          Insider mutators (membership key from the hook, MAC recomputed by the reference model, rebuilt message proven identical for the unmodified case): re-attribution to another member's leaf, wrong and stale \
-         confirmation tag, content or authenticated_data changed with a fresh membership tag. Receivers: clones of members, the joiner's client (Welcome, tree), an external committer and an observer (GroupInfo). \
+         confirmation tag, content or authenticated_data changed with a fresh membership tag; structural forgeries by the committer itself (leaf and content re-signed with its keys, parent hash recomputed over the \
+         modified path by the independent tree model, MAC recomputed; two positive controls prove the forger produces acceptable messages): every shorter update path, a longer one, a wrong parent hash, another \
+         member's HPKE or signature key in the new leaf, the unchanged HPKE key, a leaf signed for another index. Receivers: clones of members, the joiner's client (Welcome, tree), an external committer and an observer (GroupInfo). \
          Oracle: never Ok, never a panic; parts of a Welcome addressed to other joiners are exempt; genuine copies are delivered afterwards and must report the true sender, payload and authenticated data. \
          Non-trivial = rejection by an authentication / validation check (error class other than decode, group id, version, epoch); distinct by (message kind, mutation, receiver, epoch).",
         &hp,
